@@ -18,6 +18,7 @@
    option combination and every oracle. *)
 From Coq Require Import String Ascii Permutation Sorted.
 From Verif Require Import Base.Prelude Misc.Console Proofs.ConsoleP.
+From Verif Require Base.GoSem Gen.RootSrc Proofs.SrcRootP.
 
 (* "every remaining field" spelled out *)
 Theorem C16_wanted_spec : forall o evt k,
@@ -230,6 +231,13 @@ Example C16_ex_f9_old_code :
   move_error_front (isort blt [bs "a"; bs "error"; bs ""]) = [bs "error"; bs ""; bs "a"].
 Proof. vm_compute. auto. Qed.
 
+(* ---- about the SOURCE: Gen/RootSrc.v holds the translation (harness/cmd/srcgen, regenerated on every run) of
+   console.go's needsQuote - a `for i := range s` over the string, i.e. over rune start offsets - and the model's
+   quoting predicate is proved equal to it for every byte string: the code returns true exactly when some byte is a
+   control byte, above 0x7e (DEL and every non-ASCII byte), a space, a backslash or a double quote. ---- *)
+Theorem C16_source_quote_rule : forall s, RootSrc.needsQuote s = GoSem.Ok (needs_quote s).
+Proof. exact Proofs.SrcRootP.needsQuote_src. Qed.
+
 Print Assumptions C16_wanted_spec.
 Print Assumptions C16_fields_exactly_once.
 Print Assumptions C16_field_text.
@@ -249,3 +257,4 @@ Print Assumptions C16_write_total.
 Print Assumptions C16_less_strict_total.
 Print Assumptions C16_sort_outcome_unique.
 Print Assumptions C16_search_fuel.
+Print Assumptions C16_source_quote_rule.
